@@ -221,6 +221,13 @@ Theorem C18_typed_discard_invisible : forall dflt n v, n <= v -> n <= dflt ->
 Proof. exact typed_discard_invisible. Qed.
 Print Assumptions C18_typed_discard_invisible.
 
+(* inputs beyond unary numbers (a 16-bit chunk size with more than 65535 records): the model's requests for k n and k cs are
+   the k-fold of those for n and cs; the harness compares the logged requests divided by k *)
+Theorem C18_requests_scale : forall k n cs, 1 <= k -> 1 <= cs ->
+  slices (k * n) (k * cs) = map (scale_slice k) (slices n cs).
+Proof. exact slices_scale. Qed.
+Print Assumptions C18_requests_scale.
+
 Example C18_param_concrete :
   param_slices 100 10 (Some 4) = [(0,4);(4,8);(8,10)]
   /\ param_slices 100 10 (Some 0) = [(0,10)] /\ param_slices 100 10 None = [(0,10)]
@@ -228,5 +235,6 @@ Example C18_param_concrete :
   /\ c18_param_case 10 (Some 4) 1 [[(0,4);(4,8);(8,10)]] = 0
   /\ c18_param_case 10 (Some 4) 1 [[(0,10)]] = 3
   /\ c18_param_case 10 None 2 [[(0,10)]; [(0,10)]] = 0
-  /\ c18_param_case 10 (Some 1) 1 [[(0,10)]] = 3.
+  /\ c18_param_case 10 (Some 1) 1 [[(0,10)]] = 3
+  /\ slices (5 * 7) (5 * 3) = map (scale_slice 5) [(0,3);(3,6);(6,7)].
 Proof. vm_compute. repeat split; reflexivity. Qed.
